@@ -143,6 +143,140 @@ def struct_send_shape(fi):
     return fmt, v, e.func.value.id
 
 
+INT_CODES = {'b': (1, True), 'B': (1, False), 'h': (2, True),
+             'H': (2, False), 'i': (4, True), 'q': (8, True),
+             'Q': (8, False)}
+
+
+def int_codec(report, R, db, name, spec, rd, sd):
+    """The other way to spell an integer codec, decided on path summaries:
+         read:  data = f.read(n); <refuse len(data) < n>;
+                int.from_bytes(data, 'big', signed=S)
+         send:  sock.send(value.to_bytes(n, 'big', signed=S))
+    int.from_bytes takes any number of bytes, so -- unlike struct.unpack --
+    a short read must be refused explicitly.  False when the methods are not
+    of this family (the caller reports the unknown idiom)."""
+    from ..callgraph import CallGraph
+    from .. import shared
+    from ..pathsum import struct as st_, is_const, show
+    S = report.__dict__.get('_s2')
+    if S is None:
+        S = report.__dict__['_s2'] = shared.summariser(db, CallGraph(db))
+    size, signed = INT_CODES[spec['code']]
+    stream = ('sym', rd.all_params[0])
+    sock = ('sym', sd.all_params[1])
+    val = ('sym', sd.all_params[0])
+    probs = []
+
+    def int_method(t, meth):
+        return t[0] == 'call' and t[1][0] == 'attr' and t[1][2] == meth
+
+    def order_signed(t, npos):
+        args, kw = list(t[2]), dict(t[3])
+        order = args[npos] if len(args) > npos else kw.get('byteorder')
+        sg = args[npos + 1] if len(args) > npos + 1 else kw.get(
+            'signed', ('const', False))
+        return order, sg
+    # -- read
+    seen = False
+    for p in S.run(rd):
+        if not p.returns:
+            continue
+        v = p.value
+        if not (v is not None and int_method(v, 'from_bytes') and
+                v[1][1] == ('builtin', 'int') and v[2]):
+            return False
+        seen = True
+        data = v[2][0]
+        if not (data[0] == 'call' and data[1] == ('attr', stream, 'read')
+                and len(data[2]) == 1 and not data[3]):
+            probs.append(('read', rd, 'decodes %s, not what one read() of '
+                          'the stream gave' % show(data)[:60]))
+            continue
+        cnt = data[2][0]
+        if cnt != ('const', size):
+            probs.append(('read', rd, 'reads %s byte(s), the protocol '
+                          'prescribes %d' % (show(cnt), size)))
+        order, sg = order_signed(v, 1)
+        if order != ('const', 'big'):
+            probs.append(('read', rd, 'byte order %s, not big-endian'
+                          % show(order or ('const', None))))
+        if sg != ('const', signed):
+            probs.append(('read', rd, 'signed=%s, the protocol prescribes '
+                          '%s' % (show(sg), signed)))
+        ln = ('op', 'len', (data,))
+        whole = False
+        for a, pol, _ in p.conds:
+            if a[1] == '<' and st_(a[2][0]) == st_(ln) and \
+                    is_const(a[2][1]) and not pol:
+                whole = whole or a[2][1][1] == size
+            elif a[1] == '==' and st_(ln) in (st_(a[2][0]), st_(a[2][1])) \
+                    and pol and ('const', size) in a[2]:
+                whole = True
+            elif a[1] == '<=' and st_(a[2][1]) == st_(ln) and \
+                    a[2][0] == ('const', size) and pol:
+                whole = True
+            elif a[1] == 'truth' and st_(a[2][0]) == st_(data) and pol \
+                    and size == 1:
+                whole = True     # not empty: at least the one byte
+        if not whole:
+            probs.append(('read', rd, 'returns a value although fewer than '
+                          '%d byte(s) may have been read [%s]: '
+                          'int.from_bytes takes any length, so the strict '
+                          'prefix of an encoding decodes to a number instead '
+                          'of raising' % (size, p.cond_text()[:80])))
+    if not seen:
+        return False
+    # -- send
+    sends = 0
+    for p in S.run(sd):
+        if not p.returns:
+            continue
+        outs = [e for e in p.calls() if e.method() == 'send' and (
+            (e.fn[0] == 'attr' and st_(e.fn[1]) == sock) or
+            (e.fn[0] == 'fn' and len(e.fn) > 2 and e.fn[2] is not None
+             and st_(e.fn[2]) == sock))]
+        if len(outs) != 1 or len(outs[0].args) != 1:
+            return False
+        b = outs[0].args[0]
+        if not int_method(b, 'to_bytes'):
+            return False
+        sends += 1
+        src = b[1][1]
+        if st_(src) != val and not (
+                src[0] == 'call' and src[1] == ('ext', 'operator.index')
+                and len(src[2]) == 1 and st_(src[2][0]) == val):
+            probs.append(('send', sd, 'encodes %s, not the value parameter'
+                          % show(src)[:60]))
+        args, kw = list(b[2]), dict(b[3])
+        ln_ = args[0] if args else kw.get('length')
+        if ln_ != ('const', size):
+            probs.append(('send', sd, 'writes %s byte(s), the protocol '
+                          'prescribes %d' % (show(ln_ or ('const', None)),
+                                             size)))
+        order, sg = order_signed(b, 1)
+        if order != ('const', 'big'):
+            probs.append(('send', sd, 'byte order %s, not big-endian'
+                          % show(order or ('const', None))))
+        if sg != ('const', signed):
+            probs.append(('send', sd, 'signed=%s, the protocol prescribes '
+                          '%s' % (show(sg), signed)))
+    if not sends:
+        return False
+    seen_k = set()
+    for side, fi, msg in probs:
+        k = 'codec:%s.%s' % (name, side)
+        if (k, msg) in seen_k:
+            continue
+        seen_k.add((k, msg))
+        report.violation(R, k, fi.path, fi.node, fi.qualname, msg)
+    if not probs:
+        report.ok(R, '%s: %d byte(s), big-endian, signed=%s through '
+                  'int.from_bytes / to_bytes, short reads refused'
+                  % (name, size, signed))
+    return True
+
+
 def r1(report, db, F, basic, ref):
     R = report.rule('R02.1', 'struct codecs: send and read format strings '
                     'agree with each other, the reference table and the '
@@ -158,6 +292,11 @@ def r1(report, db, F, basic, ref):
             raise AnalysisError('%s lacks read/send' % name, ci.node,
                                 rel(ci.path))
         rs, ss = struct_read_shape(rd), struct_send_shape(sd)
+        if (rs is None or ss is None) and spec['code'] in INT_CODES:
+            got = int_codec(report, R, db, name, spec, rd, sd)
+            if got:
+                n += 1
+                continue
         if rs is None or ss is None:
             raise AnalysisError(
                 'unrecognised codec idiom in %s.%s (expected struct.unpack('
